@@ -6,11 +6,14 @@ one module callback = one LocalSet tick (MAX_TASKS_PER_TICK polls) + one schedul
 runs at the module's next callback.  The four constants are re-read from the tokio source
 pinned by /repo/Cargo.lock every time this module is loaded and travel in every script.
 
-script := B_local B_rt C R  nT task*  event*
+script := B_local B_rt C R G  nT task*  lp(start act*)  event*
 task   := kind len op*      kind odd = spawn_local, even = tokio::spawn
 op     := 0 Log | 1 Recv (own inbox) | 2 t Send | 3 t Join | 4 Yield | 5 End
-event  := delta len act*    act := 0 t Spawn | 1 t Send
-output := records  3 e now | 2 task woken now | 1 task now | 4 pl pr left | 5 pl pr left
+event  := delta kind lp(pre act*) lp(act*)    act := 0 t Spawn | 1 t Send
+          pre = what the module's processing element does in its incoming hook (outside the runtime; only Send has
+          an effect); kind odd = the element consumes the message (handle_message not called, act ignored)
+start  = what at_sim_start does (time 0)
+output := records  6 0 now | 3 e now | 2 task woken now | 1 task now | 4 pl pr left | 5 pl pr left
 """
 import glob, os, re
 
@@ -19,7 +22,7 @@ COQ_PROP = "Properties/C06.v"; COQ_DIRS = ["Common", "Exec"]
 COQ_MODULE = "Exec.Model"; RUN_FN = "run"
 THEOREMS = ["C06_ideal_executor_reaches_quiescence", "C06_quiescent_if_within_budget", "C06_known_class_is_over_budget",
             "C06_leftover_only_in_known_class", "C06_quiescent_iff_within_budget", "C06_budget_monotone", "C06_await_observes_enabling_instant",
-            "C06_ops_within_their_poll", "C06_exec_from_quiescence_is_timely"]
+            "C06_ops_within_their_poll", "C06_exec_from_quiescence_is_timely", "C06_consumed_message_is_driven"]
 QUICK_N = 1500; THOROUGH_N = 60000
 XCHECK_N = 40
 
@@ -52,23 +55,30 @@ def tokio_consts():
         "REMOTE_FIRST_INTERVAL": grab("task/local.rs", r"const REMOTE_FIRST_INTERVAL: u8 = (\d+);"),
         "event_interval": grab("runtime/builder.rs", r"#\[cfg\(not\(loom\)\)\]\s*const EVENT_INTERVAL: u32 = (\d+);"),
         "Budget::initial": grab("task/coop/mod.rs", r"const fn initial\(\) -> Budget \{\s*Budget\(Some\((\d+)\)\)"),
+        "global_queue_interval": grab("runtime/scheduler/current_thread/mod.rs", r"const DEFAULT_GLOBAL_QUEUE_INTERVAL: u32 = (\d+);"),
     }
 
 
 CONSTS = tokio_consts()
 BL = CONSTS["MAX_TASKS_PER_TICK"]; BR = CONSTS["event_interval"]; CC = CONSTS["Budget::initial"]; RR = CONSTS["REMOTE_FIRST_INTERVAL"]
-HDR = [BL, BR, CC, RR]
+GQ = CONSTS["global_queue_interval"]
+HDR = [BL, BR, CC, RR, GQ]
+NH = len(HDR)
 
 RULE = ("scripts = (tokio constants read from the pinned source, task table, events with callback actions) from a structured generator: "
         "fan-out of n independent tasks with n in {1, B-1, B, B+1, 2B, 10B} (all spawn_local / all tokio::spawn / mixed), wake chains "
         "A->B->C.. of length around B through per-task channels (tasks pre-spawned in batches, then one trigger), k receives in one poll "
-        "with k around C, JoinHandle chains, yield_now, cross-executor wakes, random small mixes; later 'flush' events (delta 0 and > 0) "
+        "with k around C, JoinHandle chains, yield_now, cross-executor wakes, messages CONSUMED or passed on by a processing element whose "
+        "incoming hook wakes waiting tasks (tokio::spawn tasks through the inject queue; long event series rotate the scheduler tick through "
+        "global_queue_interval), tasks spawned by at_sim_start, random small mixes; later 'flush' events (delta 0 and > 0) "
         "show when left-over tasks run; non-trivial = distinct script in which tasks are polled and >= 2 targeted mechanisms occur")
-TRUSTED = ["tokio %s constants re-read on every run: MAX_TASKS_PER_TICK=%d, default event_interval=%d, Budget::initial=%d, REMOTE_FIRST_INTERVAL=%d "
-           "(the last has no effect: all wakes happen on the simulation thread, so the LocalSet's remote queue and the scheduler's inject queue stay empty)"
-           % (CONSTS["tokio"], BL, BR, CC, RR),
+TRUSTED = ["tokio %s constants re-read on every run: MAX_TASKS_PER_TICK=%d, default event_interval=%d, Budget::initial=%d, "
+           "DEFAULT_GLOBAL_QUEUE_INTERVAL=%d, REMOTE_FIRST_INTERVAL=%d (the last has no effect: all wakes happen on the simulation thread, "
+           "so the LocalSet's remote queue stays empty)" % (CONSTS["tokio"], BL, BR, CC, GQ, RR),
            "user code is a script language: tasks over Log/Recv/Send/Join/Yield/End with one unbounded channel per task; only the callback spawns; "
-           "events are messages (timer wake-ups, which des delivers outside block_on, are C05's subject and not modelled here)",
+           "callbacks are at_sim_start (one stage), messages handled by handle_message, messages consumed / passed on by one processing "
+           "element whose incoming hook sends on channels, and the tear-down; timer wake-ups (async_wakeup: wakes outside block_on, then "
+           "exec of an empty callback -- the shape of a consumed message) are C05's subject; shutdown/restart is C09's",
            "the harness observes polls and wakes by wrapping each task future and the waker it is polled with"]
 ASSUMPTIONS = ["task ids, counts and times stay far below 2^62", "the module is driven by handle_message events only"]
 CLAIM = dict(
@@ -76,7 +86,9 @@ CLAIM = dict(
          "LocalSet tick (at most 61 polls), one scheduler turn (at most 61 polls) and 128 resource operations per poll; whatever is still runnable "
          "runs at the module's next callback, at a later simulated time (62 tokio::spawn in one handler: the 62nd task runs at the next event). "
          "Machine-checked (Coq 8.16, axiom-free), for ALL values of the three budgets and all task systems of the model's language (Log/Recv/Send/"
-         "Join/Yield/End tasks spawned with spawn_local or tokio::spawn, per-task unbounded channels, JoinHandles, yield_now): the executor "
+         "Join/Yield/End tasks spawned with spawn_local or tokio::spawn, per-task unbounded channels, JoinHandles, yield_now; callbacks = "
+         "at_sim_start, handle_message, messages consumed or passed on by a processing element whose hooks wake tasks outside the runtime "
+         "(inject queue, tick counter and global_queue_interval modelled), tear-down -- each drives the runtime with one exec): the executor "
          "without budgets terminates with every queue empty; forall x, ~KnownClass x -> the bounded executor (tokio's phases, budgets, LIFO "
          "deferred wakes) returns with all queues empty and produces exactly the state, log and per-poll results of the executor without budgets, "
          "where KnownClass x = the event needs more polls than b_local / b_rt in the LocalSet tick / scheduler turn, or a poll attempts more than "
@@ -84,13 +96,15 @@ CLAIM = dict(
          "behind, so the bounded executor returns quiescent IF AND ONLY IF the event fits; "
          "larger budgets never change an event outside the class; in a run whose events are all outside the class every poll happens at the "
          "instant its task was made runnable, and every operation records the time of its poll (code after an await observes the enabling "
-         "instant); an exec that starts quiescent never polls late. Refutation witnesses for every B (B+1 independent spawns leave one queued; "
+         "instant); an exec that starts quiescent -- also the exec of the empty callback after a processing element consumed the "
+         "message and woke tasks -- never polls late. Refutation witnesses for every B (B+1 independent spawns leave one queued; "
          "c+1 receives are cut after c). The model predicts the real crate's full poll/operation log exactly (differential runs on every "
          "invocation against a real async module on des + tokio), and an independent monitor evaluates C06 itself on the implementation's log: "
          "failures inside the class are reported as KNOWN-FINDING, anything else is a violation.",
     note="Trusted: Coq kernel; extraction cross-checked in-Coq on a sample each run; harness/generator quality bounds the tie to the code; tokio is "
-         "modelled (FIFO local queue + FIFO core queue + budgets + deferred wakes), not verified: remote/inject queues are provably unused on one "
-         "thread and are not modelled; timer wake-ups (delivered outside block_on) and start/restart events are not exercised. No small complete "
+         "modelled (FIFO local queue, core + inject queue with tick counter, budgets, LIFO deferred wakes), not verified; the LocalSet's remote queue "
+         "is unused on one thread and not modelled; timer wake-ups and shutdown/restart are not exercised; wakes performed by an element's "
+         "event_end hook (after the exec) necessarily wait for the module's next callback and are outside the script language. No small complete "
          "patch exists in des (raising event_interval covers tokio::spawn but not spawn_local).",
     technique="Coq: termination measure for the budget-free executor, mode-irrelevance lemmas (budgets invisible to work that fits), wake-record "
               "invariant, symbolic refutation witnesses; differential correspondence check + independent trace monitor with a known-finding class",
@@ -105,54 +119,83 @@ def SP(t): return [0, t]
 def SD(t): return [1, t]
 
 
+def flat(xs):
+    return [x for a in xs for x in a]
+
+
 def task(kind, ops):
-    flat = [x for o in ops for x in o]
-    return [0, kind, len(flat)] + flat
+    f = flat(ops)
+    return [0, kind, len(f)] + f
 
 
-def event(delta, acts):
-    flat = [x for a in acts for x in a]
-    return [1, delta, len(flat)] + flat
+def event(delta, acts, pre=(), consume=0):
+    p = flat(pre); a = flat(acts)
+    return [1, delta, consume, len(p)] + p + [len(a)] + a
+
+
+def start(acts):
+    a = flat(acts)
+    return [2, len(a)] + a
 
 
 def join(hdr, units):
-    """units: tasks [0, kind, len, ..] and events [1, delta, len, ..] in any order; tasks keep their relative order"""
+    """units: tasks [0, kind, len, ..], events [1, delta, kind, lp, lp] and at most one start unit [2, len, ..] in any
+    order; tasks and events keep their relative order"""
     ts = [u[1:] for u in units if u[0] == 0]
     es = [u[1:] for u in units if u[0] == 1]
-    out = list(hdr[:4]) + [len(ts)]
+    st = [u[1:] for u in units if u[0] == 2]
+    out = list(hdr[:NH]) + [len(ts)]
     for t in ts:
         out += t
+    out += st[0] if st else [0]
     for e in es:
         out += e
     return out
 
 
 def split(script):
-    hdr = script[:4]
-    nt = script[4] if len(script) > 4 else 0
-    i = 5
+    hdr = script[:NH]
+    nt = script[NH] if len(script) > NH else 0
+    i = NH + 1
     units = []
     for _ in range(nt):
         if i >= len(script):
             break
         ln = script[i + 1] if i + 1 < len(script) else 0
         units.append([0] + script[i:i + 2 + ln]); i += 2 + ln
+    if i < len(script):
+        ln = script[i]
+        units.append([2] + script[i:i + 1 + ln]); i += 1 + ln
     while i < len(script):
-        ln = script[i + 1] if i + 1 < len(script) else 0
-        units.append([1] + script[i:i + 2 + ln]); i += 2 + ln
+        j = i + 2
+        for _ in range(2):
+            ln = script[j] if j < len(script) else 0
+            j += 1 + ln
+        units.append([1] + script[i:j]); i = j
     return hdr, units
 
 
-def mk(tasks, events):
-    return join(HDR, tasks + events)
+def mk(tasks, events, st=()):
+    return join(HDR, tasks + ([start(st)] if st else []) + events)
+
+
+def dec_acts(blob):
+    acts, j = [], 0
+    while j + 1 < len(blob):
+        if blob[j] in (0, 1):
+            acts.append((blob[j], blob[j + 1])); j += 2
+        else:
+            break
+    return acts
 
 
 def parse(script):
+    """-> hdr, tasks [(kind, ops)], start acts, events [(delta, consumed, pre acts, acts)]"""
     hdr, units = split(script)
-    tasks, evs = [], []
+    tasks, evs, st = [], [], []
     for u in units:
-        blob = u[3:]
         if u[0] == 0:
+            blob = u[3:]
             ops, j = [], 0
             while j < len(blob):
                 o = blob[j]
@@ -163,32 +206,39 @@ def parse(script):
                 else:
                     break
             tasks.append((u[1] % 2, ops))
+        elif u[0] == 2:
+            st = dec_acts(u[2:])
         else:
-            acts, j = [], 0
-            while j + 1 < len(blob):
-                if blob[j] in (0, 1):
-                    acts.append((blob[j], blob[j + 1])); j += 2
-                else:
-                    break
-            evs.append((u[1], acts))
-    return hdr, tasks, evs
+            d = u[1]; k = (u[2] % 2) if len(u) > 2 else 0
+            lp = u[3] if len(u) > 3 else 0
+            pre = dec_acts(u[4:4 + lp])
+            rest = u[4 + lp:]
+            acts = dec_acts(rest[1:1 + rest[0]]) if rest else []
+            evs.append((d, k, pre, acts))
+    return hdr, tasks, st, evs
 
 
 def pretty(script):
-    hdr, tasks, evs = parse(script)
+    hdr, tasks, st, evs = parse(script)
     names = {0: "log", 1: "recv", 4: "yield", 5: "end"}
-    s = "budgets tick=%d turn=%d coop=%d; " % tuple(hdr[:3]) if len(hdr) >= 3 else ""
+    s = "budgets tick=%d turn=%d coop=%d gqi=%d; " % (hdr[0], hdr[1], hdr[2], hdr[4]) if len(hdr) >= 5 else ""
     parts = []
     for i, (k, ops) in enumerate(tasks[:12]):
         parts.append("T%d(%s):[%s]" % (i, "local" if k else "rt",
                                        " ".join(names.get(o[0]) or ("send>%d" % o[1] if o[0] == 2 else "join %d" % o[1]) for o in ops[:8]) + (" .." if len(ops) > 8 else "")))
     if len(tasks) > 12:
         parts.append(".. %d tasks" % len(tasks))
-    t = 0
-    for d, acts in evs:
-        t += d
+
+    def sh(acts):
         sp = [a[1] for a in acts if a[0] == 0]; sd = [a[1] for a in acts if a[0] == 1]
-        parts.append("@%d{spawn %s; send %s}" % (t, (sp if len(sp) <= 6 else "%d tasks" % len(sp)), (sd if len(sd) <= 6 else "%d msgs" % len(sd))))
+        return "spawn %s; send %s" % ((sp if len(sp) <= 6 else "%d tasks" % len(sp)), (sd if len(sd) <= 6 else "%d msgs" % len(sd)))
+    if st:
+        parts.append("start{%s}" % sh(st))
+    t = 0
+    for d, k, pre, acts in evs:
+        t += d
+        el = ("element%s{%s} " % (" CONSUMES" if k else "", sh(pre))) if (pre or k) else ""
+        parts.append("@%d %s%s" % (t, el, "" if k else "handler{%s}" % sh(acts)))
     return s + " ".join(parts)
 
 
@@ -289,8 +339,10 @@ def gen_mix(rng):
         acts = []
         for _ in range(rng.choice([0, 1, 2, 5, nt, 2 * nt])):
             acts.append(SP(rng.randrange(nt)) if rng.random() < 0.6 else SD(rng.randrange(nt)))
-        evs.append(event(rng.choice([0, 1, 5, 7]), acts))
-    return mk(tasks, evs)
+        pre = [SD(rng.randrange(nt)) for _ in range(rng.choice([0, 0, 1, 2]))]
+        evs.append(event(rng.choice([0, 1, 5, 7]), acts, pre=pre, consume=1 if rng.random() < 0.2 else 0))
+    st = [SP(rng.randrange(nt)) for _ in range(rng.choice([0, 0, 1, nt]))]
+    return mk(tasks, evs, st=st)
 
 
 def gen_small_within(rng):
@@ -308,8 +360,62 @@ def gen_small_within(rng):
     return mk(tasks, [event(1, [SP(i) for i in range(n)]), event(4, [SD(0)])] + flush_events(rng))
 
 
+def gen_element(rng):
+    """tasks spawned by at_sim_start wait on their channels; messages are consumed / passed on by the processing element,
+    whose incoming hook sends to some of them (tokio::spawn tasks are then woken through the inject queue)"""
+    B = min(BL, BR)
+    n = rng.choice([1, 2, 3, 5, 8, B - 1, B, B + 1])
+    ks = kinds_for(rng, n)
+    rounds = rng.choice([1, 2, 3, 5])
+    tasks = []
+    for i in range(n):
+        ops = []
+        for _ in range(rounds):
+            ops += [RECV, LOG]
+            if rng.random() < 0.3 and n > 1:
+                ops.append(SEND(rng.randrange(n)))
+        tasks.append(task(ks[i], ops))
+    evs = []
+    for _ in range(rng.choice([1, 2, 3, 4, 8])):
+        consume = rng.randint(0, 1)
+        m = rng.choice([1, 1, 2, 3, n])
+        pre = [SD(rng.randrange(n)) for _ in range(m)]
+        if rng.random() < 0.1:
+            pre.append(SP(rng.randrange(n)))           # no effect outside the runtime
+        acts = [SD(rng.randrange(n)) for _ in range(rng.choice([0, 1, 2]))]
+        evs.append(event(rng.choice([0, 1, 5, 7]), acts, pre=pre, consume=consume))
+        if rng.random() < 0.3:
+            evs.append(event(rng.choice([0, 3]), []))
+    st = [SP(i) for i in range(n)]
+    if rng.random() < 0.15:                             # some tasks are spawned later, by a handler
+        st = st[:n // 2]
+        evs.insert(0, event(1, [SP(i) for i in range(n // 2, n)]))
+    return mk(tasks, evs + flush_events(rng), st=st)
+
+
+def gen_tick_phase(rng):
+    """many events in which the element wakes one tokio::spawn task (inject queue) and the handler another (core queue):
+    which is polled first depends on the scheduler's tick counter modulo global_queue_interval"""
+    ne = rng.choice([GQ - 2, GQ, GQ + 3, 2 * GQ + 5])
+    a, b = [], []
+    for _ in range(ne):
+        a += [RECV, LOG]; b += [RECV, LOG]
+    tasks = [task(0, a), task(0, b)]
+    if rng.random() < 0.5:
+        tasks.append(task(1, a))
+    evs = []
+    for _ in range(ne):
+        pre = [SD(0)] + ([SD(2)] if len(tasks) > 2 and rng.random() < 0.5 else [])
+        if rng.random() < 0.2:
+            evs.append(event(rng.choice([0, 2]), [], pre=[SD(0), SD(1)], consume=1))
+        else:
+            evs.append(event(rng.choice([0, 2]), [SD(1)], pre=pre))
+    return mk(tasks, evs, st=[SP(i) for i in range(len(tasks))])
+
+
 def gen(rng, n):
-    fams = [gen_fanout, gen_fanout, gen_chain, gen_chain, gen_coop, gen_join, gen_yield, gen_mix, gen_mix, gen_small_within]
+    fams = [gen_fanout, gen_fanout, gen_chain, gen_chain, gen_coop, gen_join, gen_yield, gen_mix, gen_mix, gen_small_within,
+            gen_element, gen_element, gen_element, gen_tick_phase]
     for _ in range(n):
         yield rng.choice(fams)(rng)
 
@@ -325,11 +431,18 @@ def exhaustive():
             yield gen_chain(rng, n=n, kind=kind)
     for k in range(1, 2 * CC + 3, 3):
         yield gen_coop(rng, k=k, kind=k % 2)
+    for kind in (0, 1):
+        for consume in (0, 1):
+            for n in range(1, B + 3):                 # the element wakes n waiting tasks
+                yield mk([task(kind, [RECV, LOG]) for _ in range(n)],
+                         ([event(1, [SP(i) for i in range(BL, n)])] if n > BL else []) +
+                         [event(5, [], pre=[SD(i) for i in range(n)], consume=consume), event(7, [])],
+                         st=[SP(i) for i in range(min(n, BL))])
 
 
 def around(rng, script, n):
     for _ in range(n):
-        yield rng.choice([gen_fanout, gen_chain, gen_coop, gen_join, gen_yield, gen_mix])(rng)
+        yield rng.choice([gen_fanout, gen_chain, gen_coop, gen_join, gen_yield, gen_mix, gen_element, gen_tick_phase])(rng)
 
 
 # ----------------------------------------------------------------------------- reading the output
@@ -343,7 +456,7 @@ def records(out):
         t = out[i]
         if t == 9 and i == len(out) - 1:
             raise Bad("the simulation returned an error")
-        ln = {1: 3, 2: 4, 3: 3, 4: 4, 5: 4}.get(t)
+        ln = {1: 3, 2: 4, 3: 3, 4: 4, 5: 4, 6: 3}.get(t)
         if ln is None or i + ln > len(out):
             raise Bad("malformed output at %d" % i)
         res.append(tuple(out[i:i + ln])); i += ln
@@ -367,10 +480,10 @@ def monitor(script, out):
         recs = records(out)
     except Bad as e:
         return str(e)
-    hdr, tasks, evs = parse(script)
+    hdr, tasks, st_acts, evs = parse(script)
     n = len(tasks)
     times, t = [], 0
-    for d, _ in evs:
+    for d, _, _, _ in evs:
         t += d; times.append(t)
     pc = [0] * n; spawned = [False] * n; inbox = [0] * n; fin = [None] * n
     jh = ["N"] * n; runnable = [None] * n; why = [""] * n; blocked = [None] * n
@@ -398,6 +511,14 @@ def monitor(script, out):
             else:
                 eff[i] = False
 
+    def callback(acts, now):
+        for a, tg in acts:
+            if a == 0:
+                if tg < n and not spawned[tg]:
+                    spawned[tg] = True; jh[tg] = "T"; runnable[tg] = now; why[tg] = "spawned"
+            else:
+                deliver(tg, now, "the callback")
+
     k = 0
     while k < len(recs):
         r = recs[k]; k += 1
@@ -408,12 +529,15 @@ def monitor(script, out):
             if now != times[e]:
                 return "event %d scripted for %d was handled at %d" % (e, times[e], now)
             next_ev += 1; cur = now
-            for a, tg in evs[e][1]:
-                if a == 0:
-                    if tg < n and not spawned[tg]:
-                        spawned[tg] = True; jh[tg] = "T"; runnable[tg] = now; why[tg] = "spawned"
-                else:
-                    deliver(tg, now, "the handler")
+            _, consumed, pre, acts = evs[e]
+            for a, tg in pre:
+                if a == 1:
+                    deliver(tg, now, "the processing element" + (" that consumed the message" if consumed else ""))
+            callback([] if consumed else acts, now)
+        elif r[0] == 6:
+            if k != 1 or r[2] != 0:
+                return "at_sim_start ran at %d (record %d)" % (r[2], k - 1)
+            callback(st_acts, 0)
         elif r[0] in (4, 5):
             left = any(x is not None for x in runnable)
             if bool(r[3]) != left:
@@ -518,8 +642,9 @@ def mechanisms(script, out):
         recs = records(out)
     except Bad:
         return m
-    hdr, tasks, evs = parse(script)
+    hdr, tasks, st_acts, evs = parse(script)
     kinds = {k for k, _ in tasks}
+    if any(a == 0 for a, _ in st_acts): m.add("spawned_by_at_sim_start")
     if kinds == {0, 1}: m.add("mixed_executors")
     elif kinds == {1}: m.add("all_spawn_local")
     elif kinds == {0}: m.add("all_tokio_spawn")
@@ -529,7 +654,17 @@ def mechanisms(script, out):
             if o[0] == 4: m.add("yield_now")
             if o[0] == 2: m.add("task_sends")
     run = 0
+    cur_ev = None
     for r in recs:
+        if r[0] == 3:
+            cur_ev = evs[r[1]] if r[1] < len(evs) else None
+            if cur_ev and any(a == 1 for a, _ in cur_ev[2]) and not cur_ev[1] and any(a == 1 and t < len(tasks) and tasks[t][0] == 0 for a, t in cur_ev[3]) \
+                    and any(a == 1 and t < len(tasks) and tasks[t][0] == 0 for a, t in cur_ev[2]):
+                m.add("inject_and_core_queue_in_one_turn")
+        if r[0] in (4, 5, 6):
+            cur_ev = None
+        if r[0] == 2 and cur_ev and any(a == 1 and t == r[1] for a, t in cur_ev[2]) and r[2] == r[3]:
+            m.add("wake_from_consuming_element" if cur_ev[1] else "wake_from_passing_element")
         if r[0] == 4:
             if r[1] == BL: m.add("tick_budget_reached")
             if r[2] == BR: m.add("turn_budget_reached")
@@ -543,7 +678,7 @@ def mechanisms(script, out):
             run += 1
             if run == CC: m.add("coop_budget_reached")
         if r[0] == 5 and (r[1] or r[2]): m.add("polls_at_sim_end")
-    for d, _ in evs[1:]:
+    for d, _, _, _ in evs[1:]:
         if d == 0: m.add("same_instant_callback")
     return m
 
